@@ -5,6 +5,8 @@ import (
 	"context"
 	"encoding/json"
 	"fmt"
+	"google.golang.org/protobuf/encoding/protowire"
+	"strings"
 
 	"github.com/gogo/protobuf/proto"
 	pb "github.com/ipfs/boxo/ipld/unixfs/pb"
@@ -184,6 +186,32 @@ func kindOf(n datamodel.Node) string {
 	return n.Kind().String()
 }
 
+// typeFieldLast re-serialises a UnixFS Data message with its DataType field
+// (number 1) moved behind all other fields; nil if it has none or does not parse.
+func typeFieldLast(b []byte) []byte {
+	var typ, rest []byte
+	for len(b) > 0 {
+		num, wt, n := protowire.ConsumeTag(b)
+		if n < 0 {
+			return nil
+		}
+		m := protowire.ConsumeFieldValue(num, wt, b[n:])
+		if m < 0 {
+			return nil
+		}
+		if num == 1 {
+			typ = append(typ, b[:n+m]...)
+		} else {
+			rest = append(rest, b[:n+m]...)
+		}
+		b = b[n+m:]
+	}
+	if typ == nil || rest == nil {
+		return nil
+	}
+	return append(rest, typ...)
+}
+
 func c14Cases(quick bool) []c14Case {
 	var out []c14Case
 	add := func(label string, data []byte, nodata bool, expect string, linkShapes []int) {
@@ -260,6 +288,26 @@ func c14Cases(quick bool) []c14Case {
 		add(fmt.Sprintf("shard-fanout-%d-bitfield-1byte", f), shard(func(d *pb.Data) { d.Fanout = u64p(f); d.Data = []byte{1} }), false, "error", []int{0})
 	}
 	add("shard-no-bitfield-with-links", shard(func(d *pb.Data) { d.Data = nil }), false, "no-panic", []int{1})
+	// the same payloads with the fields in another wire order (protobuf field
+	// order is not significant; the decoder accepts any): DataType last, and a
+	// non-minimal (two-byte) DataType tag first
+	base := len(out)
+	for i := 0; i < base; i++ {
+		c := out[i]
+		if c.NoData || len(c.Data) == 0 || strings.HasPrefix(c.Label, "garbage") || strings.HasPrefix(c.Label, "rejected-inner") || strings.HasPrefix(c.Label, "unknown-type-minus1") {
+			continue
+		}
+		if re := typeFieldLast(c.Data); re != nil {
+			c2 := c
+			c2.Label, c2.Data = c.Label+" [DataType last]", re
+			out = append(out, c2)
+		}
+		if len(c.Data) >= 2 && c.Data[0] == 0x08 {
+			c3 := c
+			c3.Label, c3.Data = c.Label+" [overlong DataType tag]", append([]byte{0x88, 0x00}, c.Data[1:]...)
+			out = append(out, c3)
+		}
+	}
 	return out
 }
 
